@@ -13,7 +13,7 @@ use vbase::{ensure, fail};
 
 use crate::family::*;
 
-pub const RULE: &str = "cases are rejected (and some accepted) inputs: generated multi-line documents after one or two random mutations, every truncation / substitution / deletion of a set of multi-line documents, UTF-8 damage, long multi-line inputs (480..4200 bytes of short lines before the damaged part), documents whose strings carry invalid UTF-8 in front of a later defect, and texts printed (pretty, multi-line) from generated values of typed targets and then damaged so that visitor-made errors occur (missing/unknown/duplicate field, invalid type/value/length, unknown variant, out-of-range number). Every error returned by from_slice/from_str for Value, LazyValue, OwnedLazyValue, IgnoredAny and the typed targets, by Deserializer::deserialize at a non-zero stream position, by the utf8_lossy() deserializer (Value, typed, OwnedLazyValue, over &[u8] and Bytes, first and later documents), StreamDeserializer, get/get_from_*, get_many, get_by_schema and both lazy iterators is checked: offset <= input length; (line, column) == the position of that offset recomputed from the input (line = 1 + newlines before it, column = bytes since the last newline); Display and Debug do not panic and are non-empty; the NotFound category arises only from path lookups; after a stream or lazy iterator has returned Err or None, five further polls return None. Non-trivial = error with offset >= 1 and at least one newline before it; distinct by (input, entry point).";
+pub const RULE: &str = "cases are rejected (and some accepted) inputs: generated multi-line documents after one or two random mutations, every truncation / substitution / deletion of a set of multi-line documents, UTF-8 damage, long multi-line inputs (480..4200 bytes of short lines before the damaged part), documents whose strings carry invalid UTF-8 in front of a later defect, and texts printed (pretty, multi-line) from generated values of typed targets and then damaged so that visitor-made errors occur (missing/unknown/duplicate field, invalid type/value/length, unknown variant, out-of-range number). Every error returned by from_slice/from_str for Value, LazyValue, OwnedLazyValue, IgnoredAny and the typed targets, by Deserializer::deserialize at a non-zero stream position, by the utf8_lossy() deserializer (Value, typed, OwnedLazyValue, over &[u8] and Bytes, first and later documents), StreamDeserializer, get/get_from_*, get_many, get_by_schema and both lazy iterators is checked: offset <= input length; (line, column) == the position of that offset recomputed from the input (line = 1 + newlines before it, column = bytes since the last newline); Display and Debug do not panic and are non-empty; the NotFound category arises only from path lookups; after a stream or lazy iterator — polled directly or through nth / skip / step_by — has returned Err or None, five further polls return None. Non-trivial = error with offset >= 1 and at least one newline before it; distinct by (input, entry point).";
 pub const ASSUMPTIONS: &[&str] = &["line/column convention as implemented and documented: line 1-based, column = number of bytes between the last newline and the offset", "errors that do not come from parsing input (to_value, writer I/O) are outside the domain"];
 
 fn check_error(api: &str, e: &sonic_rs::Error, input: &[u8], lookup: bool, obs: &mut Obs) -> Result<(), Fail> {
@@ -227,6 +227,50 @@ pub fn oracle(input: &[u8], obs: &mut Obs) -> Result<(), Fail> {
         }
         for _ in 0..5 {
             ensure!(it.next().is_none(), "C20/iter/not-latched", "to_array_iter over {:?} yields something after it ended", show_bytes(input, 300));
+        }
+        // the same through iterator adaptors (nth / skip / step_by step over members without yielding them):
+        // once the adaptor has reported the end (None) or an error, nothing more comes
+        for k in 1..=3usize {
+            let mut it = sonic_rs::to_array_iter(input);
+            let mut ended = matches!(it.nth(k), None | Some(Err(_)));
+            for _ in 0..10_000 {
+                if ended {
+                    break;
+                }
+                ended = matches!(it.next(), None | Some(Err(_)));
+            }
+            for _ in 0..5 {
+                ensure!(it.next().is_none(), "C20/iter/not-latched", "to_array_iter over {:?} yields something after nth({k}) / next reported an error or the end", show_bytes(input, 300));
+            }
+            let mut it = sonic_rs::to_object_iter(input);
+            let mut ended = matches!(it.nth(k), None | Some(Err(_)));
+            for _ in 0..10_000 {
+                if ended {
+                    break;
+                }
+                ended = matches!(it.next(), None | Some(Err(_)));
+            }
+            for _ in 0..5 {
+                ensure!(it.next().is_none(), "C20/iter/not-latched", "to_object_iter over {:?} yields something after nth({k}) / next reported an error or the end", show_bytes(input, 300));
+            }
+            let mut w = sonic_rs::to_array_iter(input).step_by(k + 1);
+            for _ in 0..10_000 {
+                if matches!(w.next(), None | Some(Err(_))) {
+                    break;
+                }
+            }
+            for _ in 0..5 {
+                ensure!(w.next().is_none(), "C20/iter/not-latched", "to_array_iter(..).step_by({}) over {:?} yields something after it reported an error or the end", k + 1, show_bytes(input, 300));
+            }
+            let mut w = sonic_rs::to_object_iter(input).skip(k);
+            for _ in 0..10_000 {
+                if matches!(w.next(), None | Some(Err(_))) {
+                    break;
+                }
+            }
+            for _ in 0..5 {
+                ensure!(w.next().is_none(), "C20/iter/not-latched", "to_object_iter(..).skip({k}) over {:?} yields something after it reported an error or the end", show_bytes(input, 300));
+            }
         }
         let mut it = sonic_rs::to_object_iter(input);
         for _ in 0..10_000 {
